@@ -12,7 +12,7 @@ from mcx.envh import *  # noqa
 from mcx.ledger import Ledger
 from mcx.enumr import shard
 from mcx.common import Report, pmap
-from tradingenv.rewards import RewardSimpleReturn, RewardLogReturn, LogReturn, RewardPnL
+from tradingenv.rewards import RewardSimpleReturn, RewardLogReturn, LogReturn, RewardPnL, AbstractReward
 
 LEVEL = "fault_enumeration"
 BASE = datetime(2020, 1, 6, 10, 0, 0)
@@ -25,13 +25,28 @@ FUT = fut("XF", 2.0, 0.25)
 POSITIONS = [("long2", SPOT, 2.0, (0.5, 0.25), 4.0), ("long3", SPOT, 3.0, (0.5, 0.25), 4.0),
              ("short1", SPOT, -1.0, (2.0, 4.0), 0.25), ("short2", SPOT, -2.0, (2.0, 4.0), 0.25),
              ("fut3", FUT, 3.0, (0.5, 0.25), 4.0), ("futshort2", FUT, -2.0, (2.0, 4.0), 0.25)]
+# ruin through the decision's OWN execution: quotes with ask = 2 x bid; "step" targets +w, "step2" targets -w
+POSITIONS += [("spread3", SPOT, 3.0, (2.0,), None), ("spreadfut3", FUT, 3.0, (2.0,), None)]
+
+
+class FlatReward(AbstractReward):
+    """A user reward that does not value the account (e.g. a reward computed from the observation only)."""
+
+    def calculate(self, env):
+        return 0.0
+
+
 REWARDS = {"simple": lambda: RewardSimpleReturn(), "log": lambda: RewardLogReturn(),
-           "shaped": lambda: LogReturn(scale=0.5, clip=2.0, risk_aversion=0.1), "pnl": lambda: RewardPnL()}
+           "shaped": lambda: LogReturn(scale=0.5, clip=2.0, risk_aversion=0.1), "pnl": lambda: RewardPnL(),
+           "flat": lambda: FlatReward()}
+NON_VALUING = {"flat"}
 CALLS = ["step", "step2", "reset"]
 
 KF_STEP_RAISES = "step-raises-at-ruin:EndOfEpisodeError:step>calculate>net_liquidation_value"
 KF_INDEX = "step-raises-at-ruin:IndexError:step>calculate>__getitem__"
 KF_ACCEPTED = "decision-accepted-after-ruin-step-raised"
+KF_LATE = "done-false-at-ruin-end-of-step:non-valuing-reward"
+KF_OWN = "step-raises-at-ruin-by-own-execution:"
 
 
 def grid():
@@ -44,6 +59,10 @@ def build_events(contract, path):
     evs = []
     p = P0
     for i, g in enumerate(G):
+        if path is not None and path["mech"] == "spread":
+            # no spread before bar r-1 (the quote in force when decision r arrives), ask = f x bid from then on
+            evs.append(EventNBBO(g, contract, p, p * path["f"] if i >= path["r"] - 1 else p))
+            continue
         if path is not None and i == path["r"]:
             if path["mech"] == "latent":
                 # adverse quote lands within the latency window after the previous bar: applied BEFORE decision i
@@ -114,6 +133,8 @@ def run_case(pos_i, path, cash, reward, script, tick=False):
                      reward=REWARDS[reward](), **kw)
     out = []
     actions = {"step": np.array([w]), "step2": np.array([w / 2])}
+    if path is not None and path["mech"] == "spread":
+        actions["step2"] = np.array([-w])
 
     def fresh_ledger():
         return Ledger(cash, [contract.symbol])
@@ -219,20 +240,51 @@ def run_case(pos_i, path, cash, reward, script, tick=False):
             valuation_check(led, "after the refused decision %d" % k)
             continue
         # solvent at decision time: the decision must be executed normally
-        if exc is not None and len(env.broker.track_record) == ntr:
+        if exc is not None and after == before:
             out.append(("solvent decision %d (NLV %s) was not executed: %r" % (k, float(nlv_dec), exc), None))
             ended = True
             continue
-        if len(env.broker.track_record) != ntr + 1:
-            out.append(("solvent decision %d produced %d track-record entries" % (k, len(env.broker.track_record) - ntr), None))
-        else:
+        if len(env.broker.track_record) == ntr + 1:
             for t in env.broker.track_record[-1].trades:
                 led.trade(t.contract, t.quantity, t.bid_price, t.ask_price, 0.0, 0.0)
+            recorded = True
+        else:
+            # no (or more than one) entry: the executed trade is read from the position change, priced at the quotes in force
+            # when the decision arrived (whether an executed decision must leave an entry is C07's subject, not judged here)
+            recorded = False
+            qd = quote_at(evs, G[k - 1] + timedelta(seconds=L))
+            dq = dict(after[0]).get(str(contract), 0.0) - dict(before[0]).get(str(contract), 0.0)
+            if dq != 0:
+                led.trade(contract, dq, qd.bid_price, qd.ask_price, 0.0, 0.0)
+        nlv_exec = nlv_at(led, G[k - 1] + timedelta(seconds=L))
+        if nlv_exec <= 0:
+            # the decision arrived solvent and its OWN execution (spread paid at leverage) made the account insolvent:
+            # this is the step during which the account first becomes insolvent - it must report done
+            if exc is None:
+                if not ret[2]:
+                    out.append(("decision %d arrived solvent (NLV %s), its own execution left NLV %s <= 0, and the step returned done=False"
+                                % (k, float(nlv_dec), float(nlv_exec)), None))
+            else:
+                sig = tb_signature(exc)
+                out.append(("the step whose own execution made the account insolvent (NLV %s -> %s) raised %r instead of returning done"
+                            % (float(nlv_dec), float(nlv_exec), exc),
+                            (KF_OWN + sig) if sig.startswith("IndexError:") else "step-raises-at-ruin:" + sig))
+            # the done flag is set by the refused post-trade valuation: nothing may be accepted afterwards
+            ruin_raised = "dec" if exc is not None else False
+            ended = True
+            valuation_check(led, "after the ruinous execution of decision %d" % k)
+            continue
+        if not recorded:
+            out.append(("solvent decision %d produced %d track-record entries" % (k, len(env.broker.track_record) - ntr), None))
         nlv_end = nlv_at(led, G[k])
         if nlv_end <= 0:
             if exc is None:
                 if not ret[2]:
-                    out.append(("account insolvent at the end of step %d (NLV %s) but done=False" % (k, float(nlv_end)), None))
+                    # with a reward that values the account the pinned tree raises here (D5a); with one that does not, nothing
+                    # notices the ruin before the next decision: the end is reported one call late (same defect, D5d)
+                    out.append(("account insolvent at the end of step %d (NLV %s) but done=False" % (k, float(nlv_end)),
+                                KF_LATE if reward in NON_VALUING else None))
+                    ruin_raised = "end"
             else:
                 sig = tb_signature(exc)
                 out.append(("the step during which the account became insolvent (NLV %s) raised %r instead of returning done"
@@ -278,6 +330,8 @@ def paths(pos_i, tier):
     name, contract, w, adverse, recf = POSITIONS[pos_i]
     out = [None]
     rs = (1, 2, 3) if tier == "quick" else (1, 2, 3, 4)
+    if recf is None:
+        return [{"r": r, "f": f, "mech": "spread", "rec": None, "recf": None} for r in rs for f in adverse]
     for r in rs:
         for f in adverse:
             for mech in ("bar", "latent"):
@@ -352,7 +406,6 @@ def run(tier, **kw):
 
 def replay(case, **kw):
     res = run_case(case["pos"], case["path"], case["cash"], case["reward"], tuple(case["script"]), case.get("tick", False))
-    known = {KF_STEP_RAISES, KF_INDEX, KF_ACCEPTED}
     from mcx.common import Known
     kn = Known()
     return [m for m, sig in res if not (sig and kn.match("C09", sig))]
